@@ -360,6 +360,44 @@ func main() {
 				return
 			}
 		}
+		// with Repair the result is not reproducible to the last bit (map order), but it is to far
+		// below the lattice spacing: same face count and every vertex within 0.02 spacings of a
+		// vertex of the default-buffer mesh, whatever the buffer size (Repair + Clip re-derives
+		// each repaired vertex's lattice cell after the streaming loop has ended)
+		if rng.Intn(2) == 0 {
+			mkR := func(buf int) []vlib.Tri {
+				d := mk(s, 1, buf)
+				d.Repair, d.Clip = true, true
+				return vlib.Tris(d.Mesh())
+			}
+			refR := mkR(0)
+			if vs := vertexList(refR); len(vs) <= 2500 {
+				buf := 1 + rng.Intn(row*3)
+				_, _, _, bufRows := model3d.VerifDcLattice(s.Lo, s.Hi, delta, noJitter, buf)
+				gotR := mkR(buf)
+				c.Count("dc.repair_comparisons", 1)
+				if bufRows < len(zs) {
+					c.Count("dc.repair_comparisons_with_buffer_shifts", 1)
+				}
+				wit["bufsize"], wit["bufrows"] = buf, bufRows
+				worst := 0.0
+				for _, p := range vertexList(gotR) {
+					best := math.Inf(1)
+					for _, q := range vs {
+						if d := p.Dist(q); d < best {
+							best = d
+						}
+					}
+					if best > worst {
+						worst = best
+					}
+				}
+				if len(gotR) != len(refR) || worst > 0.02*delta {
+					c.Violation("model3d.DualContouring.Mesh[Repair+Clip]/buffer-independent", fmt.Sprintf("BufferSize=%d (rows %d of %d): %d faces vs %d with the default buffer, a vertex is %.3g spacings away from every vertex of the default-buffer mesh", buf, bufRows, len(zs), len(gotR), len(refR), worst/delta), wit)
+					return
+				}
+			}
+		}
 		if len(ref) >= 8 {
 			c.Nontrivial("dc" + s.Desc + fmt.Sprint(delta, clip, noJitter))
 		}
@@ -687,4 +725,18 @@ func rasterCollider(r *vlib.Run) {
 		}
 		c.Nontrivial(fmt.Sprint("rastercollider", c.Index, sub, rast.Scale))
 	})
+}
+
+func vertexList(ts []vlib.Tri) []C3 {
+	seen := map[C3]bool{}
+	var res []C3
+	for _, t := range ts {
+		for _, p := range t {
+			if !seen[p] {
+				seen[p] = true
+				res = append(res, p)
+			}
+		}
+	}
+	return res
 }
